@@ -318,6 +318,57 @@ def build(tier="quick", seed=0):
             pack.add(Obligation(name, lambda tier, name=name, k=k, how=how: prove_paths(name, th_eof_codec_path(k, how), lambda p, k=k: (p.value == (k, "stop"), f"yielded {p.value[0]}, ended {p.value[1]} (must yield the {k} flushed record(s) and end without error)"),
                                 lambda m_, p: {}, allow_raise=("UnicodeEncodeError", "error")), replay=lambda w, k=k: {"call": "c04_gz_flushpoint", "args": {"records": k, "by_path": True}}, functions=FU + ("flow.record.base:open_path", "flow.record.base:open_stream"), mode="path-based entry, codec contract"))
 
+    def th_short_mid(call, keep):
+        # a write call in the MIDDLE of the stream takes only a part of what it is given (a raw file object; it returns the count) and the program writes on:
+        # what is read back is exactly the records that were written - nothing altered, nothing skipped
+        def th():
+            D = it.call(RD, ["c04/blob", [("string", "s"), ("varint", "n"), ("bytes", "blob")]], {})
+            fp = AbsFile(it, mode="wb")
+            fp.short_at = (call, keep)
+            w = it.call(st.g["RecordStreamWriter"], [fp], {})
+            recs = [it.call(D, [], {"n": 10 + i, "s": "r%d" % i, "blob": b"A" * size, "_generated": GEN}) for i, size in enumerate(SIZES)]
+            try:
+                for r in recs:
+                    it.call(it.getattr_(w, "write"), [r], {})
+                accepted = len(SIZES)
+            except PyRaise:
+                accepted = None  # the writer noticed and raised: the caller knows
+            segs = fp.content()
+            if not all(isinstance(s_, (bytes, bytearray)) or getattr(s_, "concrete", None) is not None for s_ in segs):
+                raise Unsupported("abstract segment in a concrete history")
+            data = b"".join(s_ if isinstance(s_, (bytes, bytearray)) else s_.concrete for s_ in segs)
+            rd = it.call(st.g["RecordStreamReader"], [AbsFile(it, [data])], {})
+            out, end = drain(it, it.iterate(rd))
+            return accepted, [(it.unbase(o.attrs.get("n")), it.unbase(o.attrs.get("s")), len(it.unbase(o.attrs.get("blob")) or b""), repr(it.unbase(o.attrs.get("_generated")))) if isinstance(o, PObj) else repr(o)[:40] for o in out], end if isinstance(end, str) else end[:2]
+        return th
+
+    SIZES = [10, 300, 250, 700, 40]
+    import datetime as _dtm
+
+    GEN = _dtm.datetime(2024, 5, 6, 7, 8, 9, 123456, tzinfo=_dtm.timezone.utc)
+
+    def judge_short_mid_for(call):
+        def judge_short_mid(p):
+            accepted, out, end = p.value
+            want = [(10 + i, "r%d" % i, size, repr(GEN)) for i, size in enumerate(SIZES)]
+            damaged = (call - 4) // 2  # index of the record whose frame the short write hits (calls 0-1 header, 2-3 descriptor, then two per record)
+            # what may come out: the records in front of the damaged frame, all of them; behind them only unaltered written records, in order (then an end or an error)
+            rest, k = out[damaged:], damaged
+            ok = out[:damaged] == want[:damaged]
+            for o in rest:
+                while k < len(want) and want[k] != o:
+                    k += 1
+                if k == len(want):
+                    ok = False
+                    break
+                k += 1
+            return ok, f"short write in the frame of record {damaged} (the writer {'raised' if accepted is None else 'returned normally'}): read back {[o if isinstance(o, str) else o[0] for o in out]!r} (ended {end}); written {[w_[0] for w_ in want]!r} - altered, invented or skipped-in-front-of-the-damage records"
+        return judge_short_mid
+
+    for call, keep in ((5, 1), (5, 20), (5, 31), (6, 1), (6, 3), (7, 10), (7, 47), (7, 347), (7, 349), (8, 0), (9, 60), (9, 299)):
+        name = f"C04.short_write[write call {call} (of 2 per frame, after the header) stores {keep} byte(s) and says so, the program writes on]"
+        pack.add(Obligation(name, lambda tier, name=name, call=call, keep=keep: prove_paths(name, th_short_mid(call, keep), judge_short_mid_for(call)), replay=lambda w, call=call, keep=keep: {"call": "c04_short_mid", "args": {"call": call, "keep": keep}}, functions=FU, mode="concrete history of four records, short write at a chosen call"))
+
     def th_symtail():
         D, Do = two_descs()
         t = z3.Int("t")
